@@ -466,22 +466,33 @@ def poly_value(poly, env):
     return tot
 
 
-def small_model(cons, extra_values=(), limit=200000):
+def small_model(cons, extra_values=(), limit=200000, derived=None):
     """An assignment of small non-negative integers to the atoms that satisfies every (Poly, op) in cons, or None.
     Candidates per atom: 0..3 and the constants that occur in the constraints (and their neighbours).  This only
     exhibits a witness for a path condition that was already derived; finding none proves nothing."""
     from itertools import product
-    atoms = sorted({a for p, op in cons for a in p.atoms()}, key=repr)
+    derived = derived or {}       # atom -> function(env) giving its value from the other atoms (e.g. align-up)
+    atoms = {a for p, op in cons for a in p.atoms() if a not in derived}
+    for a, fn in derived.items():
+        atoms |= set(getattr(fn, 'needs', ()))
+    atoms = sorted(atoms, key=repr)
     vals = {0, 1, 2, 3}
     for p, op in cons:
         c = abs(p.t.get((), 0))
         vals.update(v for v in (c - 1, c, c + 1) if v >= 0)
+        for mon, k in p.t.items():
+            if mon and abs(k) > 3:
+                vals.update(v for v in (abs(k) - 1, abs(k)) if v >= 0)
     vals.update(extra_values)
     vals = sorted(vals)
     if len(vals) ** max(1, len(atoms)) > limit:
         vals = vals[:6]
     for combo in product(vals, repeat=len(atoms)):
         env = dict(zip(atoms, combo))
+        for a, fn in derived.items():
+            env[a] = fn(env)
+        if any(v is None for v in env.values()):
+            continue
         ok = True
         for p, op in cons:
             v = poly_value(p, env)
